@@ -261,6 +261,12 @@ PLANS["C20"] = {
         # export / import / create-by-query histories (also on names that exist), closed at the end
         T("io", "io", (20, 400), ["InvNoPanic"], backends="bolt,badger"),
         EDG("edges", ["InvNoPanic"], states=(20, 0), reads=(30, 200), writes=(10, 40)),
+        # model level: the protocol between Begin and Close (CloverClose), as the stores implement it now ("count"),
+        # as the badger adapter did before P41 (TLC finds the use of a closed store) and as a read/write lock taken
+        # recursively would (TLC finds the deadlock)
+        MC("close-count", "CloverClose", "MC_Close_count.cfg", workers=4),
+        MC("close-flag-prerepair", "CloverClose", "MC_Close_flag.cfg", workers=4, expect_violation="NoUseAfterClose"),
+        MC("close-rwlock-recursive", "CloverClose", "MC_Close_rwlock.cfg", workers=4, expect_violation="Deadlock"),
         # the handle is closed by one goroutine while others use it: every call returns (no panic, no call that waits for
         # ever), Close takes effect at one instant, and the calls after it fail (TraceLin with the open flag)
         {"kind": "lin", "name": "lin-close", "n": (150, 3000), "maxg": 5, "ops": 8, "family": "close", "chunk": 15, "seed_off": 83},
